@@ -9,10 +9,11 @@
 #define KEY   "key-c07-secret"
 
 enum { B_HONEST = 0, B_FOREIGN_ID, B_STALE_ID, B_OTHER_HASH, B_OTHER_LEVEL, B_STATUS, B_ERROR_PDU, B_TRUNCATED, B_BAD_MAC, B_NO_MAC,
-       B_OTHER_VERSION, B_INCONSISTENT, B_EMPTY, B_NO_CHAINS, B_OTHER_KEY, B_NO_HEADER, B_GARBAGE, B_REORDERED, B_ID_HIGH32, B_ID_HIGHFF, B_NBEH };
+       B_OTHER_VERSION, B_INCONSISTENT, B_EMPTY, B_NO_CHAINS, B_OTHER_KEY, B_NO_HEADER, B_GARBAGE, B_REORDERED, B_ID_HIGH32, B_ID_HIGHFF, B_LC_WRAP, B_NBEH };
 static const char *BNAME[B_NBEH] = {"honest", "foreign-id", "stale-id", "other-hash", "other-level", "status", "error-pdu", "truncated", "bad-mac", "no-mac",
-                                    "other-version", "inconsistent", "empty", "no-chains", "other-key", "no-header", "garbage", "chains-top-first", "id-plus-2^32", "id-high-half-set"};
-static const uint64_t STATUSES[] = {0x0101, 0x0102, 0x0103, 0x0104, 0x0105, 0x0106, 0x0107, 0x0200, 0x0300, 0x0301, 0x7777};
+                                    "other-version", "inconsistent", "empty", "no-chains", "other-key", "no-header", "garbage", "chains-top-first", "id-plus-2^32", "id-high-half-set", "level-correction-wraps"};
+static const uint64_t STATUSES[] = {0x0101, 0x0102, 0x0103, 0x0104, 0x0105, 0x0106, 0x0107, 0x0200, 0x0300, 0x0301, 0x7777,
+                                   0x100000000ULL, 0x8000000000000000ULL, 0xffffffff00000000ULL, 0x100000101ULL};   /* wider than 32 bits: low half zero / a known code */
 #define NSTATUS ((int)(sizeof STATUSES / sizeof *STATUSES))
 /* internally inconsistent replies: ways to break an honest body */
 #define NINCONS 8
@@ -110,6 +111,8 @@ static void handler(const unsigned char *req, size_t n, vbuf *resp, void *user) 
 		rp_aggregate(&sig, hash, hl, level, shape, S.tail, 1700000000ULL, 1700000000ULL + 86400 * 3);
 		if (S.behaviour == B_INCONSISTENT) break_body(&sig, S.sub);
 		sig.ch[0].links[0].level_corr -= level;
+		/* a first level correction just below 2^64: adding the requested level wraps it around to a small, plausible value */
+		if (S.behaviour == B_LC_WRAP && r.has_level && r.level > 0) sig.ch[0].links[0].level_corr = (uint64_t)0 - r.level + (uint64_t)(S.sub % 2 ? r.level - 1 : 0);
 		if (S.behaviour != B_NO_CHAINS) {
 			rp_sig_body(&sig, &body);
 			if (S.behaviour == B_REORDERED) chains_top_first(&body);
@@ -191,6 +194,7 @@ static void one_case(int iface, int transport, int version, int doc_alg, uint64_
 	set_version(ctx, version);
 	expect_ok = (behaviour == B_HONEST) && honest_possible(level);
 	if (behaviour == B_OTHER_LEVEL && level == 0) expect_ok = 1;          /* deviation not expressible at level 0: reply is honest */
+	if (behaviour == B_LC_WRAP && level == 0 && honest_possible(level)) expect_ok = 1;
 	if (iface != 2) {
 		if (KSI_CTX_setAggregator(ctx, uri, LOGIN, KEY) != KSI_OK) vf_harness_error("setAggregator");
 		if (behaviour == B_STALE_ID) {
@@ -301,7 +305,7 @@ static void part_main(void) {
 	for (iface = 0; iface < 6; iface++) for (tr = 0; tr < 2; tr++) for (ver = 2; ver >= 1; ver--)
 	for (ai = 0; ai < 4; ai++) for (li = 0; li < 5; li++) for (shape = 0; shape < 6; shape++) for (tail = 0; tail < 3; tail++)
 	for (b = 0; b < B_NBEH; b++) {
-		int nsub = b == B_STATUS || b == B_ERROR_PDU ? NSTATUS : b == B_INCONSISTENT ? NINCONS : 1;
+		int nsub = b == B_STATUS || b == B_ERROR_PDU ? NSTATUS : b == B_INCONSISTENT ? NINCONS : b == B_LC_WRAP ? 2 : 1;
 		int rt = tail == 2 ? 3 : tail;
 		if ((iface == 1 || iface == 5) && li != 0) continue;     /* createSignature / KSI_Signature_create have no level */
 		if (!VF_THOROUGH) {
